@@ -9,7 +9,7 @@ CASE_TYPE = "case15"
 CHECK_FN = "check_cases"
 MISMATCH_IS_VIOLATION = False
 HARNESS_TIMEOUT = 3000
-RULE = ("every combination of faults on the main file {good, missing, a directory, unreadable (child runs as uid 65534), malformed YAML, empty}, the personal notebook {absent, "
+RULE = ("every combination of faults on the main file {good (UTF-8, UTF-8 with BOM, UTF-16 LE / BE), missing, a directory, unreadable (child runs as uid 65534), malformed YAML, empty}, the personal notebook {absent, "
         "good, malformed, a directory, unreadable} and the backup file {absent, good}, with retry configurations MaxAttempts in {-1,0,1,2,3,4}, base delay {0,1,2 ms}, cap "
         "{0,1 ms,3 ms,5 s}, dyadic back-off factors {1,2,4,1.5,0.5}; LoadDatabaseWithFallback runs in a child process under strace: load attempts = openat calls on the main "
         "file, gaps between them from strace time stamps (checked as lower bounds only), the returned database is listed and searched once. non-trivial: every case; "
@@ -21,6 +21,8 @@ EMB = None
 
 
 def acc(kind, names):
+    if kind in ("utf16le", "utf16be", "utf8bom"):   # the same list of entries in another legal encoding
+        kind = "good"
     return {"good": "(AOk %s)" % ec.cbl([list(n.encode()) for n in names]), "empty": "(AOk [])", "blank": "(AOk [])", "comment": "(AOk [])", "emptylist": "(AOk [])", "dup": "(AOk %s)" % ec.cbl([list(n.encode()) for n in ["git status", "my cmd", "my cmd"]]), "missing": "ANotExist", "absent": "ANotExist", "dir": "AOtherRead",
             "unreadable": "APermission", "malformed": "AParse"}[kind]
 
